@@ -412,6 +412,50 @@ def check_C13(tier):
                                          'with --activity the API reference draws the event time from the same engine after each shot'], min_eval=100)
 
 
+def check_C12(tier):
+    import re
+    t0 = time.time()
+    agg = Agg('C12')
+    b = compile_bin('threads', ['checks/threads.cc'], 'fast')
+    base = ['--seed', str(seed()), '--tier', tier, '--known', known_tsv('C12')]
+    agg.add(run_native(b, base + ['--mode', 'kernel'], NCPU, 'C12-kernel'))
+    agg.add(run_native(b, base + ['--mode', 'gen'], NCPU, 'C12-gen'))
+    # free-running under ThreadSanitizer (first-use initialisation included: each process starts cold)
+    bt = compile_bin('threads', ['checks/threads.cc'], 'tsan')
+    tlog = os.path.join(BUILD, 'run', 'C12-tsanlog')
+    import shutil, glob
+    shutil.rmtree(tlog, ignore_errors=True)
+    os.makedirs(tlog)
+    reps = run_native(bt, base + ['--mode', 'free', '--cases', '160' if tier == 'thorough' else '32'], NCPU, 'C12-tsan', extra_env={'TSAN_OPTIONS': 'halt_on_error=0:log_path=' + os.path.join(tlog, 'tsan')})
+    tsan_text = ''.join(open(f, errors='replace').read() for f in glob.glob(os.path.join(tlog, 'tsan.*')))
+    for r in reps[:1]:
+        r['stderr'] = r.get('stderr', '') + tsan_text
+    races = {}
+    for r in reps:
+        for blk in re.findall(r'WARNING: ThreadSanitizer: data race.*?(?=\n\n|SUMMARY)', r.get('stderr', ''), re.S):
+            m = re.search(r'#\d+ (bxdecay0::[^\n]*?) (/[^\s]*bxdecay0/[^\s:]+:\d+)', blk)
+            if m:
+                races.setdefault(re.sub(r'^.*/', '', m.group(2)), m.group(1)[:120])
+        for m in re.finditer(r'SUMMARY: ThreadSanitizer: data race ([^\n]*)', r.get('stderr', '')):
+            loc = m.group(1)
+            if '/bxdecay0/' in loc:
+                races.setdefault(re.sub(r'^.*/', '', loc.split(' in ')[0]), loc.split(' in ')[-1][:120])
+        r['rc'] = 0 if r.get('rc') in (0, 66) else r.get('rc')  # TSan exits 66 when it reported something
+    agg.add(reps)
+    for loc, fn in sorted(races.items()):
+        path = os.path.join(REPLAY, 'C12-tsan-%s.txt' % re.sub(r'[^A-Za-z0-9_.]', '_', loc))
+        open(path, 'w').write('ThreadSanitizer data race at %s in %s\nreproduce: ./build/bin/tsan/threads --mode free --cases 32 --shard 0 --nshards 1 --out /dev/null\n' % (loc, fn))
+        agg.failures.append({'sig': 'C12|tsan|data-race:%s' % loc, 'msg': 'ThreadSanitizer: data race in bxdecay0 code at %s (%s) while generators run on different threads' % (loc, fn), 'replay': path})
+    rule = ('schedules, not timing: guarded schedule points in decay0_gauss hand control to a cooperative scheduler, so that exactly one thread runs between two points in a generated order; '
+            'kernel level: ALL interleavings of 2 threads x 1 decay0_gauss call (252 per pair of integrand kinds, 9 pairs) and, thorough, 2x2 calls (48620 per assignment), plus random schedules for 2-3 '
+            'threads x 1-2 calls over integrands that reach / miss the tolerance; generator level: 2-4 decay0_generator instances (modes whose quadratures miss the tolerance) initialised and shot on '
+            'threads under random schedules; the same workloads free-running under ThreadSanitizer after a start barrier; oracle: recording GSL handler never invoked (GSL\'s default aborts), handler '
+            'restored after join, results bit-identical to a sequential run, no TSan race in bxdecay0 frames; non-trivial & distinct = schedules where two save/restore windows overlap and at least one quadrature misses its tolerance')
+    return verdict(agg, tier, t0, rule, ['only the schedule points in gauss.cc are controlled; other shared state is left to TSan\'s happens-before analysis under free-running threads',
+                                         'TSan cannot see the handler pointer inside the uninstrumented libgsl: that part is decided by the forced schedules'],
+                   extra_cov={'exhaustive': True, 'exhaustive_note': 'the 2x1 kernel-level interleavings are enumerated completely; everything else is sampling'}, min_eval=500)
+
+
 def check_C08(tier):
     """sanitizer builds (ASan+UBSan+_GLIBCXX_ASSERTIONS) of the generation drivers + structure-aware libFuzzer target"""
     t0 = time.time()
@@ -468,6 +512,9 @@ def replay(prop, path):
         bdir = vlib.build_variant('fast')
         api = compile_bin('api_ref', ['checks/api_ref.cc'], 'fast')
         return subprocess.run(['python3-vt', os.path.join(ROOT, 'py/c13.py'), os.path.join(bdir, 'bxdecay0-run'), api, _killshim(), 'quick', os.path.join(BUILD, 'run', 'c13-replay.json'), '--replay', path], env=run_env()).returncode
+    if prop == 'C12':
+        b = compile_bin('threads', ['checks/threads.cc'], 'fast')
+        return subprocess.run([b, '--replay', path], env=run_env()).returncode
     if prop == 'C10':
         b = compile_bin('mdlcheck', ['checks/mdlcheck.cc'], 'fast')
         return subprocess.run([b, '--replay', path], env=run_env()).returncode
